@@ -46,7 +46,8 @@ pub fn space_text(prop: u8) -> &'static str {
         6 => "all next/next_back/len call programs of length <= 7 on into_sorted_iter (directly and reversed) over every queue of 0..=5 elements with 3 priority patterns (distinct, all ties, two-valued), plus the sorted-vec forms",
         8 => "all 2^n keep-masks of retain and retain_mut (with two rewrites) over n <= 8 elements, 3 priority patterns, both kinds",
         9 => "all next/next_back/probe call programs of length <= 7 on iter_mut() and (&mut q).into_iter() over n <= 4 elements, with and without priority rewrites, both kinds",
-        11 => "push_increase / push_decrease x 7 offered-priority classes x every target position x n <= 6 x 3 priority patterns x both kinds",
+        1 | 2 => "size sweep: every queue size 2..=64 and a dense subset up to 600 x 4 priority patterns x {root to below-min, pop, last leaf to above-max, remove root, pop_if rewriting to below-min, extreme ties}",
+        11 => "size sweep: every queue size 2..=1100 x 4 priority patterns x push_decrease of root / second level to below-min, push_increase of the last leaf to above-max, ties with the extremes; and push_increase / push_decrease x 9 offered-priority classes x every target position x n <= 6 x 3 priority patterns x both kinds",
         13 => "all call programs of length <= 6 on iter/&q/into_iter/drain/sorted over n <= 4, and all 40 adaptor compositions x arguments 0..=n+2 x 6 iterator kinds x n <= 4, both kinds",
         _ => "",
     }
@@ -167,6 +168,70 @@ pub fn small_cases(prop: u8) -> Vec<Case> {
             }
         }
         _ => {}
+    }
+    v.extend(size_sweep(prop));
+    v
+}
+
+/// Every queue size in a range x four priority patterns x the single-element operations that sift
+/// from the root to the bottom or from the last leaf to the top: boundary conditions that depend on
+/// the exact size (last parent with a single child, level boundaries, size thresholds of fast paths).
+pub fn size_sweep(prop: u8) -> Vec<Case> {
+    let mut v = Vec::new();
+    let (kinds, max_n): (&[Kind], usize) = match prop {
+        1 => (&[Kind::PQ], 600),
+        2 => (&[Kind::DPQ], 600),
+        11 => (&[Kind::PQ, Kind::DPQ], 1100),
+        _ => return v,
+    };
+    let big = |n: usize, pattern: u8| -> Vec<(u32, u32, i64)> {
+        (0..n)
+            .map(|i| {
+                let p = match pattern {
+                    0 => i as i64,
+                    1 => (n - i) as i64,
+                    2 => ((i as u64).wrapping_mul(0x9E37_79B9_7F4A_7C15) >> 44) as i64,
+                    _ => (i % 3) as i64,
+                };
+                (i as u32, 0, p)
+            })
+            .collect()
+    };
+    for &kind in kinds {
+        for n in 2..=max_n {
+            // below 64 the exhaustive/random parts are dense already; above, every size is visited
+            if n > 64 && prop != 11 && n % 2 == 1 && n % 7 != 0 {
+                continue;
+            }
+            for pattern in 0..4u8 {
+                let root = Target::Pos(0);
+                let deep = Target::Pos(65535);
+                let second = Target::Pos((65536usize * 2 / n.max(3) + 1).min(65535) as u16);
+                let ops: Vec<Vec<Op>> = match prop {
+                    11 => vec![
+                        vec![Op::PushDec { t: root, tag: 1, p: PrioSpec::BelowMin(0) }],
+                        vec![Op::PushDec { t: second, tag: 1, p: PrioSpec::BelowMin(0) }],
+                        vec![Op::PushInc { t: deep, tag: 1, p: PrioSpec::AboveMax(0) }],
+                        vec![Op::PushDec { t: Target::Max, tag: 1, p: PrioSpec::EqMin }],
+                        vec![Op::PushInc { t: Target::Min, tag: 1, p: PrioSpec::EqMax }],
+                    ],
+                    _ => vec![
+                        vec![Op::Change { t: root, p: PrioSpec::BelowMin(0), by_ref: true }],
+                        vec![Op::Pop { end: End::Max }, Op::Pop { end: End::Min }],
+                        vec![Op::Change { t: deep, p: PrioSpec::AboveMax(0), by_ref: true }],
+                        vec![Op::Remove { t: root, by_ref: true }],
+                        vec![Op::PopIf { end: End::Max, ans: false, rw: Rewrite::BelowMin, tagw: None }],
+                        vec![Op::Change { t: Target::Max, p: PrioSpec::EqMin, by_ref: false }, Op::Change { t: Target::Min, p: PrioSpec::AboveMax(1), by_ref: false }],
+                    ],
+                };
+                for o in ops {
+                    let mut c = mk(kind, CtorKind::FromVec, big(n, pattern), o);
+                    c.universe = 1024;
+                    c.drain_every = 255; // the raw order check escalates to the behavioural ones
+                    v.push(c);
+                }
+            }
+        }
     }
     v
 }
